@@ -14,7 +14,7 @@ META = dict(
     text="Per step and per user, TLC compares the change of the user's balance with the flows the statement prescribes for the user's orders: "
          "placement takes offer + floor(offer*fee) (no reserve for MM orders), every fill returns its demand coins, termination (completed, expired, "
          "cancelled, cancel-all, MM replace) returns the unspent offer plus reserve - floor(executed*fee) (C07_OwnerLedger, delta form). "
-         "C07_Cancellable: a cancel by the owner of a live order outside its placement batch succeeds and yields status Canceled. "
+         "C07_Cancellable: a cancel by the owner of a live order outside its placement batch (by the harness's own clock: at least one end-of-block with a due batch has run since placement, not the module's batch counter) succeeds and yields status Canceled. "
          "C07_CancelAll: after a successful CancelAllOrders every live order of the signer outside its placement batch (named pairs / all pairs) is Canceled. "
          "C07_MMReplace: after a successful CancelMMOrder / MMOrder every earlier live MM order of that owner in that pair is Canceled. "
          "C07_EscrowCovers / C07_NothingRemains: the pair escrow covers unspent offers + held reserves of live orders and is empty when the book is empty; "
@@ -27,7 +27,7 @@ META = dict(
 
 def run(c):
     d, res = _c04.pipeline(c)
-    return _c04.finish(c, d, res, ["placed", "marketPlaced", "marketBoundary", "feeStepPlaced", "roundedUpPlaced", "marketPartialEnd", "cancel", "cancelAll", "cancelAllMixed", "mmImproved", "mmIndexHole", "mm", "mmDiff", "mmPartial", "completed", "expired", "canceled", "partialEnd", "filled", "emptied", "ledger"],
+    return _c04.finish(c, d, res, ["rqOrder", "rqMarket", "rqMarketBoundary", "rqFeeStep", "rqRoundedUp", "rqPartialEnd", "rqMarketPartialEnd", "rqExpiryDue", "rqCrossing", "rqDemandExceedsRest", "rqLowResidual", "cancel", "rqCancelAll", "rqCancelAllMixed", "rqMM", "rqMMDiff", "rqMMPartial", "rqMMIndexHole", "rqMMImproved"],
                        "bounded TLC model (3 configs: orders on app 1, pools on app 1, orders on app 2 = app id != pair id) checked exhaustively; its alphabet explored "
                        "breadth-first on the real module; seeded random multi-actor runs (limit / market / MM orders, cancel, cancel-all, MM cancel, expiry, "
                        "partial fills over several batches) with a drain phase; each recorded node is one TLC state of Trace_Liquidity")
